@@ -11,6 +11,7 @@ use std::{
 
 use serde_json::{json, Value};
 
+mod c17cmd;
 mod evalcmd;
 mod util;
 
@@ -74,6 +75,10 @@ fn main() {
 	let sub = args.get(1).map(String::as_str).unwrap_or("");
 	match sub {
 		"eval" => run_lines(evalcmd::handle),
+		"lex" => run_lines(c17cmd::lex),
+		"rowan" => run_lines(c17cmd::rowan),
+		"spans" => run_lines(c17cmd::spans),
+		"loc" => run_lines(c17cmd::loc),
 		"version" => println!("jrharness 1"),
 		_ => {
 			eprintln!("usage: jrharness <eval|...>");
